@@ -268,10 +268,13 @@ class Array:
             del self.data[start: start + self._dtype.bitlength]
 
     def __repr__(self) -> str:
-        list_str = f"{self.tolist()}"
+        def item_repr(x) -> str:
+            # Long bitstrings are given in full, as the usual truncated form can't be used to recreate them.
+            return f"{x.__class__.__name__}('{x._str(None)}')" if isinstance(x, Bits) else repr(x)
+
+        list_str = '[' + ', '.join(item_repr(x) for x in self.tolist()) + ']'
         trailing_bit_length = len(self.data) % self._dtype.bitlength
-        final_str = "" if trailing_bit_length == 0 else ", trailing_bits=" + repr(
-            self.data[-trailing_bit_length:])
+        final_str = "" if trailing_bit_length == 0 else ", trailing_bits=" + item_repr(self.data[-trailing_bit_length:])
         return f"Array('{self._dtype}', {list_str}{final_str})"
 
     def astype(self, dtype: Union[str, Dtype]) -> Array:
@@ -458,7 +461,7 @@ class Array:
         data._pp(dtype1, dtype2, token_length, width, sep, format_sep, show_offset, stream, False, token_length)
         stream.write("]")
         if trailing_bit_length != 0:
-            stream.write(" + trailing_bits = " + str(self.data[-trailing_bit_length:]))
+            stream.write(" + trailing_bits = " + self.data[-trailing_bit_length:]._str(None))
         stream.write("\n")
 
     def equals(self, other: Any) -> bool:
